@@ -783,13 +783,14 @@ func runC04(cfg *vh.Config) error {
 	res := vh.NewResult("C04", cfg.Seed)
 	res.Rule = "objects of 2-7 properties over every field type (integer x4, string, bytes, bool, enum, key x5 formats with entity keys, float x2, date, decimal, timestamp, any, object (flatten), oneof), each plain / required / optional / array (rules, singleForm) / map, every validation rule absent / zero / boundary, both values of every boolean, list rules (filtering, default filters, sorting, default sort, searching), descriptions; non-trivial = distinct property declaration carrying at least one rule, flag, format or annotation"
 	cf := &vh.CasesFile{
-		Header: "From Coq Require Import String List NArith ZArith.\nFrom J5V.lib Require Import Outcome.\nFrom J5V.model Require Import ProtoPrintLit ProtoPrint ProtoPrintFile.\nFrom J5V.model Require Import RulesDecl RulesRead RulesEnum RulesReadCorr.",
+		Header: "From Coq Require Import String List NArith ZArith.\nFrom J5V.lib Require Import Outcome.\nFrom J5V.model Require Import ProtoPrintLit ProtoPrint ProtoPrintFile.\nFrom J5V.model Require Import RulesDecl RulesRead RulesEnum RulesNested RulesInlineEnum RulesReadCorr.",
 		Type:   "c04case",
 		Check:  "c04_check",
 	}
 	// consecutive seeds of vh.NewRand are one draw apart (state = seed*G + c, each draw adds G):
 	// fork, so that VERIF_SEED=1,2,3 are unrelated streams
 	r := cfg.R.Fork("C04")
+	genTSBounds, genKeyWellKnown = false, true
 	nObj := cfg.Scale(260, 4000)
 	distinct := vh.Distinct{}
 	caseNo := 0
@@ -1054,6 +1055,14 @@ func runC04(cfg *vh.Config) error {
 		case mem.err != nil:
 			res.Count("reflect-error")
 			sig := "C04 reflecting the compiled object fails: " + firstWords(mem.err.Error(), 8)
+			if strings.Contains(mem.err.Error(), "is not compatible with list.unique_string") {
+				for _, p := range props {
+					t := p.P.T
+					if t.Kind == TKey && t.KF == KCustom && t.List != nil && p.P.PK != PMap && (t.KPat == wellKnownPatterns[0] || t.KPat == wellKnownPatterns[1] || t.KPat == wellKnownPatterns[2]) {
+						sig = "C04 key:custom whose pattern is one of the reader's well-known patterns (date / number / id62) and which carries list rules: the reader fails (string format is not compatible with list.unique_string), the object does not reflect"
+					}
+				}
+			}
 			if strings.Contains(mem.err.Error(), "open_text and format") {
 				for _, p := range props {
 					t := p.P.T
@@ -1099,7 +1108,7 @@ func runC04(cfg *vh.Config) error {
 				}
 				res.Count("property-differs")
 				paths := collapse(raw, p.P.PK == PMap)
-				sigs := explain(p, raw)
+				sigs := explain(p, raw, want, reflProps[i])
 				if sigs == nil {
 					sigs = []string{fmt.Sprintf("C04 %s: reflected schema differs from the declared one at %s", shapeOf(p.P), strings.Join(paths, " "))}
 				}
@@ -1150,6 +1159,8 @@ func runC04(cfg *vh.Config) error {
 		}
 		caseNo++
 	}
+	runNested(cfg.R.Fork("C04-nested"), cfg, res, cf, &caseNo, &evals)
+	runInlineEnums(cfg.R.Fork("C04-inline-enum"), cfg, res, cf, &caseNo, &evals)
 	res.Evaluations = evals
 	res.Distinct = len(distinct)
 	per := 120
@@ -1189,6 +1200,45 @@ func dedup(xs []string) []string {
 type asymmetry struct {
 	sig     string
 	allowed []string
+	// guard (optional): what the known defect leaves intact must be intact — otherwise the
+	// difference is not (only) the known one and reports under its own signature
+	guard func(want, got *schema_j5pb.ObjectProperty) bool
+}
+
+func itemField(op *schema_j5pb.ObjectProperty) *schema_j5pb.Field {
+	switch t := op.GetSchema().GetType().(type) {
+	case *schema_j5pb.Field_Array:
+		return t.Array.GetItems()
+	case *schema_j5pb.Field_Map:
+		return t.Map.GetItemSchema()
+	}
+	return op.GetSchema()
+}
+
+// a declared key item that reads back as a key without its format, or (when it carries neither an
+// entity annotation nor list rules) as a string: entity and list rules must have survived
+func keyExtrasIntact(want, got *schema_j5pb.ObjectProperty) bool {
+	w := itemField(want).GetKey()
+	if w == nil {
+		return true
+	}
+	wl := w.ListRules
+	if want.GetSchema().GetMap() != nil {
+		wl = nil // list rules of map values do not reach the reader (a class of its own)
+	}
+	switch g := itemField(got).GetType().(type) {
+	case *schema_j5pb.Field_Key:
+		return proto.Equal(w.Entity, g.Key.Entity) && proto.Equal(wl, g.Key.ListRules)
+	case *schema_j5pb.Field_String_:
+		return w.Entity == nil && wl == nil && g.String_.ListRules == nil
+	}
+	return false
+}
+
+// a declared string whose pattern is the id62 pattern reads back as key:id62 — and nothing else
+func stringAsID62Key(want, got *schema_j5pb.ObjectProperty) bool {
+	g := itemField(got).GetKey()
+	return g != nil && g.GetFormat().GetId62() != nil && g.Entity == nil && g.ListRules == nil
 }
 
 func asymmetryClasses(p genDecl) []asymmetry {
@@ -1204,7 +1254,8 @@ func asymmetryClasses(p genDecl) []asymmetry {
 		t.List = nil // list rules of map values do not reach the reader (own class below)
 	}
 	var out []asymmetry
-	add := func(sig string, allowed ...string) { out = append(out, asymmetry{sig, allowed}) }
+	add := func(sig string, allowed ...string) { out = append(out, asymmetry{sig: sig, allowed: allowed}) }
+	guarded := func(g func(want, got *schema_j5pb.ObjectProperty) bool) { out[len(out)-1].guard = g }
 	// independent of the item type
 	if !descPlain(p.P.Desc) && descExpressible(p.P.Desc) {
 		add("C04 description with a line starting with '#': the reader's commentDescription drops the line", ".description")
@@ -1227,22 +1278,24 @@ func asymmetryClasses(p genDecl) []asymmetry {
 		add("C04 string format: StringField.format is not written to the descriptor and does not read back", item+".string.format")
 	case wk(2):
 		add("C04 string whose pattern is the published id62 pattern: reads back as key:id62", item+".string", item+".key")
+		guarded(stringAsID62Key)
 	case wk(0) || wk(1):
 		add("C04 string whose pattern is the reader's well-known date / number pattern: reads back as format date / number without the pattern", item+".string.format", item+".string.rules.pattern")
 	case t.Kind == TAny && (t.AnyOD || len(t.AnyT) > 0) && p.P.PK != PSingle:
 		add("C04 array of any with onlyDefined / types: (j5.ext.v1.field).any is replaced by the array annotation", item+".any.onlyDefined", item+".any.types")
-	case t.Kind == TKey && (t.KF == KCustom || t.KF == KInformal) && p.P.PK != PSingle:
+	case t.Kind == TKey && (t.KF == KCustom || t.KF == KInformal) && p.P.PK != PSingle && !(t.KF == KInformal && t.List != nil && p.P.PK == PArray):
+		// (an informal key item WITH list rules is recognised through its unique_string foreign key)
 		add("C04 array of key:custom / key:informal: the format lives in (j5.ext.v1.field).key, which the array annotation replaces", item+".key", item+".string")
-	case t.Kind == TKey && t.KF == KCustom && t.List != nil:
-		add("C04 key:custom with list rules: written as a unique_string foreign key, reads back as key:informal", item+".key.format")
+		guarded(keyExtrasIntact)
+	case t.Kind == TKey && t.KF == KCustom && t.KPat == wellKnownPatterns[2] && t.List == nil:
+		add("C04 key:custom whose pattern is the published id62 pattern: reads back as key:id62", item+".key.format")
 	case t.Kind == TKey && t.KF == KNone && t.List != nil:
 		add("C04 key without format but with list rules: reads back as key:informal", item+".key.format")
 	case t.Kind == TKey && t.KF == KNone && p.P.PK != PSingle && t.Entity == nil:
 		add("C04 array of key without format: (j5.ext.v1.field) is the array's, the items read back as string", item+".key", item+".string")
+		guarded(keyExtrasIntact)
 	case (t.Kind == TDate || t.Kind == TDecimal) && t.Txt != nil && p.P.PK != PSingle:
 		add("C04 array of date/decimal with rules: the rules live in (j5.ext.v1.field), which the array annotation overwrites", item+".date.rules", item+".decimal.rules")
-	case t.Kind == TTimestamp && t.TS != nil && (t.TS.Min != nil || t.TS.Max != nil):
-		add("C04 timestamp rules: the bounds are never written (fields.go: \"None Implemented\"), they read back empty", item+".timestamp.rules")
 	case t.Kind == TObject && t.Flatten && p.P.PK != PSingle:
 		add("C04 array of flattened object: flatten lives in (j5.ext.v1.field), which the array annotation overwrites", item+".object.flatten")
 	}
@@ -1252,10 +1305,13 @@ func asymmetryClasses(p genDecl) []asymmetry {
 // explain: the known asymmetries that together account for every differing
 // path (each used one accounts for at least one path); nil when some path is
 // left unexplained — the difference then keeps its own path-based signature.
-func explain(p genDecl, raw []string) []string {
+func explain(p genDecl, raw []string, want, got *schema_j5pb.ObjectProperty) []string {
 	var sigs []string
 	var allowed []string
 	for _, a := range asymmetryClasses(p) {
+		if a.guard != nil && !a.guard(want, got) {
+			continue
+		}
 		used := false
 		for _, path := range raw {
 			if allUnder([]string{path}, a.allowed) {
